@@ -10,10 +10,13 @@ package main
 
 import (
 	"fmt"
+	"os"
 	"sort"
 )
 
 var skCtr int
+
+var noDefTrig = os.Getenv("GOWP_NODEFTRIG") != ""
 
 func skolemVar(hint string, s *Sort) *Term {
 	skCtr++
@@ -73,7 +76,14 @@ func skolemize(t *Term, positive bool) *Term {
 func arrayRoots(a *Term, out map[int]bool) {
 	for {
 		switch a.op {
-		case "store", "select":
+		case "store":
+			if a.args[2].sort.idx != nil {
+				// a stored row: the query may read it through this store
+				arrayRoots(a.args[2], out)
+			}
+			a = a.args[0]
+			continue
+		case "select":
 			a = a.args[0]
 			continue
 		case "ite":
@@ -249,7 +259,15 @@ func instantiateQuery(f *Term, neg *Term) *Term {
 			// candidate instances: index terms at which the query reads one of the arrays the hypothesis
 			// talks about
 			roots := map[int]bool{}
-			arraysRead(h.q.args[0], map[int]bool{}, roots)
+			if b := h.q.args[0]; !noDefTrig && seedsT != nil && b.op == "=" && b.args[0].op == "select" && b.args[0].args[1] == v && b.args[0].args[0].op == "var" && !b.args[0].args[0].bound {
+				// definitional hypothesis A[j] = rhs(j) of a fresh array A (copy, append): its instances
+				// are useful exactly where the query reads A
+				roots[b.args[0].args[0].id] = true
+				z := mkBV(0, v.sort.bv)
+				offs = map[int]*Term{z.id: z}
+			} else {
+				arraysRead(h.q.args[0], map[int]bool{}, roots)
+			}
 			idxs := map[int]*Term{}
 			for r := range roots {
 				for id, ix := range byRoot[r] {
